@@ -681,7 +681,11 @@ handshake_waitdns(int dns_fd, char *buf, int buflen, char c1, char c2, int timeo
 
 		q.id = 0;
 		q.name[0] = '\0';
-		rv = read_dns_withq(dns_fd, 0, buf, buflen, &q);
+		/* Callers compare replies as strings and terminate them in
+		   place: never show them bytes of an earlier reply, and
+		   always leave room for the terminator. */
+		memset(buf, 0, buflen);
+		rv = read_dns_withq(dns_fd, 0, buf, buflen - 1, &q);
 
 		if (q.id != chunkid || (q.name[0] != c1 && q.name[0] != c2)) {
 #if 0
